@@ -150,8 +150,11 @@ Definition ms_cext (pi k : T) (asm : cx * cx * cx * cx) (px py : T) : T :=
 Definition amn_row : Type := (cx * cx)%type.
 Definition q_0 (rows : list amn_row) : T := sum_from (fun _ (r : amn_row) => cabs2 (cadd (fst r) (snd r))) 0 rows.
 Definition q_pi2 (rows : list amn_row) : T := sum_from (fun _ (r : amn_row) => cabs2 (csub (fst r) (snd r))) 0 rows.
-(** A0 - 1j*A1 *)
+(** A0 + 1j*A1  (the +45 degree linear state in HoloPy's z-flipped frame; the code as found had A0 - 1j*A1, the
+    -45 degree state: see Findings.v) *)
 Definition q_pi4 (rows : list amn_row) : T :=
+  sum_from (fun _ (r : amn_row) => cabs2 (cadd (fst r) (cmul (0, 1) (snd r)))) 0 rows.
+Definition q_pi4_asfound (rows : list amn_row) : T :=
   sum_from (fun _ (r : amn_row) => cabs2 (csub (fst r) (cmul (0, 1) (snd r)))) 0 rows.
 Definition gamma_interp (q0 qp2 qp4 c2 s2 : T) : T :=
   (q0 + qp2 + c2 * (q0 - qp2) + s2 * (two * qp4 - q0 - qp2)) / two.
